@@ -37,9 +37,15 @@ failed = [l for l in ot.split("\n") if l.startswith("FAILED")]
 tests_ok = all("test_no_timing_error_accumulated" in l for l in failed) and ("passed" in ot)
 rc1, o1 = sh(cmd, timeout=900)
 results = {}
+replays = {}
 for c in checks:
     r, out = sh("cd /verif && %sVERIF_REPO=%s ./check %s --tier quick 2>&1 | grep -E 'VIOLATION|tier=|INTERNAL|TIMEOUT'" % (envp, wt, c), timeout=3600)
     results[c] = out.strip().split("\n")
+    # keep (the head of) the replay file the check wrote, next to the seeded change
+    import re
+    m = re.search(r"replay=(\S+)", out)
+    if m and os.path.exists(m.group(1)):
+        replays[c] = open(m.group(1)).read()[:20000]
 sh("git -C %s reset -q --hard %s && git -C %s clean -fdq" % (wt, head, wt))
 rc2, o2 = sh(cmd, timeout=900)
 ok = (rc0 == 0 and rc1 != 0 and rc2 == 0 and tests_ok)
@@ -54,3 +60,5 @@ if ok:
     shutil.rmtree(dst, ignore_errors=True)
     shutil.copytree(src, dst)
     json.dump(meta, open(dst + "/meta.json", "w"), indent=1)
+    for c, txt in replays.items():
+        open(dst + "/replay-%s.json.head" % c, "w").write(txt)
